@@ -4,6 +4,7 @@ import (
 	"fmt"
 	"sort"
 
+	"github.com/brocaar/lorawan"
 	"github.com/brocaar/lorawan/band"
 
 	"verifmc/engine"
@@ -13,6 +14,81 @@ func init() { register("C13", "exploration", runC13) }
 
 func runC13(r *engine.Run) {
 	r.Rule = "E1 over a finite space, enumerated completely in both tiers: 24 band names x repeater x dwell-time; per configuration: every data-rate index -1..16 x direction; protocol version {1.0.0..1.1.0, unknown} x revision {A,B,C,RP002-1.0.0..3, unknown} x DR -1..16 through GetMaxPayloadSizeForDataRateIndex and every (version, revision, DR) cell of the snapshot; every default channel; TX-power indices -1..16. Oracle: table closure and relations decided on the hook snapshot (exact key sets and direction flags), Regional Parameters constants from mc/spec/region.go. Non-trivial: a table cell or accessor result that was compared; distinct by construction."
+	// channel histories (E2): the data-rates handed out stay defined, and supported by a channel, after custom channels are added
+	for _, name := range bandNames {
+		cfg := bandCfg{name, false, lorawan.DwellTimeNoLimit}
+		init := snapOf(newBand(cfg))
+		if !init.SupportsExtraChannels {
+			continue
+		}
+		var drs []int
+		for dr, d := range init.DataRates {
+			if d.Uplink {
+				drs = append(drs, dr)
+			}
+		}
+		sort.Ints(drs)
+		hi, lo := drs[len(drs)-1], drs[0]
+		base := init.UplinkChannels[0].Frequency
+		nStd := len(init.UplinkChannels)
+		add := func(label string, min, max int) engine.XOp {
+			return engine.XOp{Name: label, Do: func(obj interface{}) string {
+				b := obj.(band.Band)
+				n := len(b.GetUplinkChannelIndices())
+				if n-nStd >= 3 {
+					return "skip"
+				}
+				return errS(b.AddChannel(base+10000000+uint32(n)*200000, min, max))
+			}}
+		}
+		x := engine.XSpec{
+			Name: "datarate-closure-histories/" + string(name), New: func() interface{} { return newBand(cfg) },
+			Ops: []engine.XOp{
+				add(fmt.Sprintf("Add(fresh,DR%d..%d)", hi, hi), hi, hi),
+				add(fmt.Sprintf("Add(fresh,DR%d..%d)", lo, lo), lo, lo),
+				add("Add(fresh,cflist-range)", init.CFListMinDR, init.CFListMaxDR),
+				{Name: "Toggle(0)", Do: func(obj interface{}) string {
+					b := obj.(band.Band)
+					if snapOf(b).UplinkChannels[0].Enabled {
+						return errS(b.DisableUplinkChannelIndex(0))
+					}
+					return errS(b.EnableUplinkChannelIndex(0))
+				}},
+			},
+			Snap:  func(obj interface{}) string { return chanSnap(snapOf(obj.(band.Band))) },
+			Warm:  bandWarm,
+			Depth: 5,
+		}
+		x.CheckState = func(c *engine.Case, obj interface{}, path []int) {
+			b := obj.(band.Band)
+			s := snapOf(b)
+			c.NonTrivial()
+			for _, dr := range b.GetEnabledUplinkDataRates() {
+				c.Eval()
+				if _, ok := s.DataRates[dr]; !ok {
+					c.Fail(fmt.Sprintf("closure/%s/enabled-uplink-datarates", regionOf(name).Name), fmt.Sprintf("%v after %v: GetEnabledUplinkDataRates hands out DR%d, which the band does not define", name, x.PathNames(path), dr), nil)
+					continue
+				}
+				supported := false
+				for _, ch := range s.UplinkChannels {
+					if dr >= ch.MinDR && dr <= ch.MaxDR {
+						supported = true
+					}
+				}
+				if !supported {
+					c.Fail(fmt.Sprintf("closure/%s/enabled-uplink-datarate-without-channel", regionOf(name).Name), fmt.Sprintf("%v after %v: GetEnabledUplinkDataRates hands out DR%d, which no uplink channel supports", name, x.PathNames(path), dr), nil)
+				}
+			}
+			for i, ch := range s.UplinkChannels {
+				for _, dr := range []int{ch.MinDR, ch.MaxDR} {
+					if _, ok := s.DataRates[dr]; !ok {
+						c.Fail(fmt.Sprintf("closure/%s/channel-dr-range", regionOf(name).Name), fmt.Sprintf("%v after %v: channel %d refers to undefined DR%d", name, x.PathNames(path), i, dr), nil)
+					}
+				}
+			}
+		}
+		r.Explore(x)
+	}
 	bandGetterHistory(r)
 	bandInstanceHistory(r)
 	r.Assume("numeric payload sizes are judged by the stated relations (M=N+8, N<=242, repeater<=non-repeater, monotone in SF at equal bandwidth), not cell by cell against the Regional Parameters (the property does not state it)")
